@@ -111,6 +111,19 @@ def pin_counting(case):
             p.link("build", k0.keyid, k0, M, P, tamper=None if ok else "sig_nibble")
             tags, expect = ["gpg_master:40e6:subkey_named_subkey+subkey_named_subkey", "several_files_per_functionary:2"], \
                 "accept" if ok else "ThresholdVerificationError"
+        elif case in ("two_subkeys_authorised_alone", "master_and_subkey_authorised"):
+            # two subkeys of ONE master, each authorised on its own (or the master plus one of its subkeys): the store
+            # holds the master, one validly signed link per authorised key id, threshold 2 -> still ONE functionary
+            p.store({m4: g.pub(m4)})
+            auth = [s1, s2] if case.startswith("two_subkeys") else [m4, s1]
+            p.step("build", auth, threshold=2)
+            if case.startswith("two_subkeys"):
+                p.link("build", s1, ("gpg", s1 + "!"), M, P)
+                p.link("build", s2, ("gpg", s2 + "!"), M, P)
+            else:
+                p.link("build", m4, ("gpg", m4 + "!"), M, P)
+                p.link("build", s1, ("gpg", s1 + "!"), M, P)
+            tags, expect = ["gpg_subkeys_alone:40e6:" + case, "several_files_per_functionary:2"], "ThresholdVerificationError"
         elif case in ("master_and_subkey_files", ):
             # files of the master itself AND of its subkey, threshold 2, nobody else valid
             p.store({m4: g.pub(m4), k0.keyid: k0.pub})
@@ -180,7 +193,8 @@ PINNED = (
        ("D2a:store_sub:signer_self", pin_d2a("sub", "self", "accept")),
        ("D8:metablock", pin_d8(False)), ("D8:dsse", pin_d8(True))]
     + [("count:" + c, pin_counting(c)) for c in
-       ("subkeys_count_once", "subkeys_count_once_enough", "master_and_subkey_files", "expired_skipped",
+       ("subkeys_count_once", "subkeys_count_once_enough", "two_subkeys_authorised_alone", "master_and_subkey_authorised",
+        "master_and_subkey_files", "expired_skipped",
         "expired_not_counted", "expired_master_live_subkey", "subkey_file_loaded", "invalid_not_counted", "invalid_next_to_enough_valid",
         "gpg_sigdict:gpg_oh_nibble", "gpg_sigdict:gpg_sig_upper", "gpg_sigdict:gpg_oh_nonhex", "gpg_sigdict:gpg_oh_odd",
         "gpg_sigdict:gpg_short_keyid_nonhex")]
